@@ -146,7 +146,14 @@ func hSkeleton(id, form, errMode int) *hWorld {
 		target(hLabel{T: hTP3})
 		conv(1, []hLabel{{Name: "m", T: hTP1}, {Name: "a", T: hTP0, Sub: sub("s1")}}, []hLabel{{T: hTP3}})
 		conv(2, []hLabel{{Name: "a", T: hTP0, Sub: sub("s2")}}, []hLabel{{Name: "m", T: hTP1}})
-		conv(3, nil, []hLabel{{Name: "a", T: hTP0, Sub: sub("s3")}})
+		if vnBool("producerIsProvider") {
+			conv(3, nil, []hLabel{{Name: "a", T: hTP0, Sub: sub("s3")}})
+		} else {
+			// a longer route to the second a-value, so that the multi-input converter is
+			// entered through its other input
+			conv(3, []hLabel{{T: hTP2}}, []hLabel{{Name: "a", T: hTP0, Sub: sub("s3")}})
+			val(hLabel{T: hTP2})
+		}
 		val(hLabel{Name: "a", T: hTP0, Sub: sub("s4")})
 	case 8:
 		// a named value converted to the same name and type with a subtype, the plain named
